@@ -1783,6 +1783,173 @@ def tolerance_lints(ctx, funcs, rule):
     return n
 
 
+def semantic_lints(ctx, funcs, mods, rule):
+    """Expressions that keep every name, call and constant of the code they replace and mean something else:
+    (a) a non-empty string / non-zero number as an operand of `and` / a non-final operand of `or` (`":" and "-" in nd`);
+    (b) `int(a + b)` over two tag values (text): concatenation, not addition;
+    (c) an inner loop whose target rebinds a name the function binds elsewhere (not as a loop target) and reads again later;
+    (d) `.pop()` / `.remove()` / `.clear()` / `.discard()` on a parameter that the function also returns (the caller's object);
+    (e) `sys.exit(logger.error(...))` / `sys.exit(print(...))`: the call returns None, the status is 0;
+    (f) `"..%s.." % tuple(x or ())`: raises TypeError exactly when x is empty / None;
+    (g) a list sorted and then turned into a set under the same name (the order is thrown away);
+    (h) the bytes arm and the str arm of an `isinstance` switch strip the line differently;
+    (i) `x = x.rstrip()` before `x.decode(...)`: bytes lose ASCII white space only, text every Unicode space;
+    (j) `%` applied to a format string that was extended with data (`fmt += k + tags[k]` ... `fmt % cols`);
+    (k) a subclass of tuple that redefines `__eq__` / `__hash__` on a part of its items."""
+    from ..core import norm, walk_own, walk_stmts, const_value
+
+    n = 0
+    for f in funcs:
+        own = list(walk_own(f.node))
+        # (a)
+        for b in own:
+            if isinstance(b, ast.BoolOp):
+                vals = b.values if isinstance(b.op, ast.And) else b.values[:-1]
+                for v in vals:
+                    cv = const_value(v, None)
+                    if isinstance(v, ast.Constant) and not isinstance(cv, bool) and isinstance(cv, (str, int, float, bytes)) and cv not in ("", 0, b""):
+                        n += 1
+                        ctx.violated(rule, f.where(b), f"`{norm(b)[:50]}`: the constant {cv!r} is an operand of `{'and' if isinstance(b.op, ast.And) else 'or'}` by itself (always true), so the condition is only `{norm(b.values[-1])[:30]}` (`x in s and y in s` was meant)", key_of(f, f"constant-operand:{norm(b)[:40]}"))
+                        break
+        # (b)
+        for c in own:
+            if isinstance(c, ast.Call) and norm(c.func) == "int" and len(c.args) == 1 and isinstance(c.args[0], ast.BinOp) and isinstance(c.args[0].op, ast.Add):
+                l_, r_ = c.args[0].left, c.args[0].right
+                if all(".tags[" in norm(x) and isinstance(x, ast.Subscript) for x in (l_, r_)):
+                    n += 1
+                    ctx.violated(rule, f.where(c), f"`{norm(c)[:60]}` adds two tag values before converting: tag values are text, so `+` concatenates them (SO 100, LN 50 gives 10050, not 150)", key_of(f, f"int-of-concatenation:{norm(c)[:40]}"))
+        # (c)
+        loops = [x for x in own if isinstance(x, ast.For)]
+        for_targets = {y.id for l in loops for y in ast.walk(l.target) if isinstance(y, ast.Name)}
+        comp_t = {y.id for x in own if isinstance(x, ast.comprehension) for y in ast.walk(x.target) if isinstance(y, ast.Name)}
+        plain_stores = {}
+        for st in walk_stmts(f.node.body):
+            if isinstance(st, (ast.Assign, ast.AugAssign, ast.AnnAssign)):
+                for t in (st.targets if isinstance(st, ast.Assign) else [st.target]):
+                    for y in ast.walk(t):
+                        if isinstance(y, ast.Name) and isinstance(y.ctx, ast.Store):
+                            plain_stores.setdefault(y.id, []).append(st)
+        for lp in loops:
+            outer = [l2 for l2 in loops if l2 is not lp and any(y is lp for y in ast.walk(l2))]
+            if not outer:
+                continue
+            for y in ast.walk(lp.target):
+                if isinstance(y, ast.Name) and y.id in plain_stores:
+                    defs_out = [d for d in plain_stores[y.id] if not any(z is d for z in ast.walk(lp))]
+                    if not defs_out:
+                        continue
+                    # read in the enclosing loop outside the inner loop (the next iteration sees the inner loop's last value)
+                    reads = [z for o in outer for z in ast.walk(o) if isinstance(z, ast.Name) and z.id == y.id and isinstance(z.ctx, ast.Load) and not any(w is z for w in ast.walk(lp))]
+                    sub_reads = [z for z in reads if any(isinstance(p_, ast.Subscript) and p_.value is z for o in outer for p_ in ast.walk(o))]
+                    if reads and all(not any(z is d for z in ast.walk(o)) for o in outer for d in defs_out):
+                        n += 1
+                        ctx.violated(rule, f.where(lp), f"the inner loop at line {lp.lineno} uses `{y.id}` as its loop variable, but `{y.id}` is bound before the enclosing loop (`{norm(defs_out[0])[:40]}`) and read there in every iteration: after the first pass through the inner loop it holds the last item instead" + (" (and is subscripted: TypeError for the next element)" if sub_reads else ""), key_of(f, f"loop-variable-overwrites:{y.id}"))
+        # (d)
+        rets = {z.id for r in own if isinstance(r, ast.Return) and r.value is not None for z in ast.walk(r.value) if isinstance(z, ast.Name)}
+        for c in own:
+            if isinstance(c, ast.Call) and isinstance(c.func, ast.Attribute) and c.func.attr in ("pop", "remove", "clear", "discard", "popitem") and isinstance(c.func.value, ast.Name) and c.func.value.id in f.params and c.func.value.id in rets and c.func.value.id != "self":
+                p_ = c.func.value.id
+                if not any(isinstance(a, ast.Assign) and any(norm(t) == p_ for t in a.targets) for a in own):
+                    n += 1
+                    ctx.violated(rule, f.where(c), f"`{norm(c)[:40]}` takes an element out of the parameter `{p_}`, the caller's own object, which the function also returns and the caller goes on using (a component emptied this way counts as 'nothing to order' and its nodes are never written)", key_of(f, f"parameter-emptied:{p_}"))
+        # (e)
+        for c in own:
+            if isinstance(c, ast.Call) and norm(c.func) in ("sys.exit", "exit", "quit") and c.args and isinstance(c.args[0], ast.Call):
+                inner = norm(c.args[0].func)
+                if inner.split(".")[0] in ("logger", "logging", "log") or inner == "print":
+                    n += 1
+                    ctx.violated(rule, f.where(c), f"`{norm(c)[:60]}`: `{inner}` returns None, and `sys.exit(None)` is exit status 0 — the failure is reported as success", key_of(f, f"exit-none:{inner}"))
+        # (f)
+        for b in own:
+            if isinstance(b, ast.BinOp) and isinstance(b.op, ast.Mod) and isinstance(const_value(b.left, None), str) and "%" in const_value(b.left) and isinstance(b.right, ast.Call) and norm(b.right.func) == "tuple" and b.right.args and isinstance(b.right.args[0], ast.BoolOp) and isinstance(b.right.args[0].op, ast.Or) and isinstance(b.right.args[0].values[-1], (ast.Tuple, ast.List)) and not b.right.args[0].values[-1].elts:
+                n += 1
+                ctx.violated(rule, f.where(b), f"`{norm(b)[:70]}` fills the placeholders from an empty tuple when `{norm(b.right.args[0].values[0])[:20]}` is empty / None: TypeError (not enough arguments), and what follows this line (the index dump) never happens", key_of(f, f"format-from-empty-tuple:{norm(b.right)[:30]}"))
+        # (g)
+        for st in walk_stmts(f.node.body):
+            if isinstance(st, ast.Assign) and len(st.targets) == 1 and isinstance(st.targets[0], ast.Name) and isinstance(st.value, ast.Call) and norm(st.value.func) in ("set", "frozenset") and st.value.args and norm(st.value.args[0]) == st.targets[0].id:
+                x = st.targets[0].id
+                sorted_before = any((isinstance(c, ast.Call) and isinstance(c.func, ast.Attribute) and c.func.attr == "sort" and norm(c.func.value) == x and f.before(c, st)) or (isinstance(c, ast.Assign) and norm(c.targets[0]) == x and isinstance(c.value, ast.Call) and norm(c.value.func) == "sorted" and f.before(c, st)) for c in own)
+                iterated_after = any(isinstance(l, ast.For) and norm(l.iter) == x and f.before(st, l) for l in own)
+                if sorted_before and iterated_after:
+                    n += 1
+                    ctx.violated(rule, f.where(st), f"`{norm(st)}` turns the sorted list into a set and the set is iterated afterwards: a set has no order (integers iterate by hash, large BGZF virtual offsets in an order unrelated to their value), so the records come out in another order than in the file, and in different orders for the plain and the compressed copy", key_of(f, f"sorted-then-set:{x}"))
+        # (h)
+        for iff in own:
+            if isinstance(iff, ast.If) and norm(iff.test).startswith("isinstance(") and "bytes" in norm(iff.test) and iff.orelse:
+                def strips(stmts):
+                    return [tuple(norm(a) for a in c.args) for s_ in stmts for c in ast.walk(s_) if isinstance(c, ast.Call) and isinstance(c.func, ast.Attribute) and c.func.attr in ("rstrip", "strip")]
+                other = iff.orelse[0].body if len(iff.orelse) == 1 and isinstance(iff.orelse[0], ast.If) and "str" in norm(iff.orelse[0].test) else iff.orelse
+                a_, b_ = strips(iff.body), strips(other)
+                if len(a_) == 1 and len(b_) == 1 and a_ != b_:
+                    n += 1
+                    ctx.violated(rule, f.where(iff), f"the bytes arm strips the line with `{'rstrip(' + ', '.join(a_[0]) + ')'}` and the text arm with `{'rstrip(' + ', '.join(b_[0]) + ')'}`: a record that ends in a blank is written differently for the compressed and the plain copy of the same file", key_of(f, "sibling-arms-strip-differently"))
+        # (i)
+        for st in walk_stmts(f.node.body):
+            if isinstance(st, ast.Assign) and len(st.targets) == 1 and isinstance(st.targets[0], ast.Name) and isinstance(st.value, ast.Call) and isinstance(st.value.func, ast.Attribute) and st.value.func.attr in ("rstrip", "strip") and not st.value.args and norm(st.value.func.value) == st.targets[0].id:
+                x = st.targets[0].id
+                if any(isinstance(c, ast.Call) and isinstance(c.func, ast.Attribute) and c.func.attr == "decode" and norm(c.func.value) == x and f.before(st, c) for c in own):
+                    n += 1
+                    ctx.violated(rule, f.where(st), f"`{norm(st)}` strips `{x}` before it is decoded: on bytes only ASCII white space goes, on text every Unicode space (NBSP, U+0085, 0x1c-0x1f) — the same line is cut differently depending on whether the file was compressed", key_of(f, f"strip-before-decode:{x}"))
+        # (j)
+        for b in own:
+            if isinstance(b, ast.BinOp) and isinstance(b.op, ast.Mod) and isinstance(b.left, ast.Name):
+                x = b.left.id
+                grown = [a for a in own if isinstance(a, ast.AugAssign) and norm(a.target) == x and isinstance(a.op, ast.Add) and any(isinstance(y, (ast.Subscript, ast.Attribute)) for y in ast.walk(a.value))]
+                fmt = [a for a in own if isinstance(a, (ast.Assign, ast.AugAssign)) and x in {norm(t) for t in (a.targets if isinstance(a, ast.Assign) else [a.target])} and isinstance(const_value(a.value, None), str) and "%" in const_value(a.value)]
+                if grown and fmt:
+                    n += 1
+                    ctx.violated(rule, f.where(b), f"`{norm(b)[:40]}` applies `%` to a string that was extended with data (`{norm(grown[0])[:50]}`): a `%` inside a value (`co:Z:cov=50%`) is read as a placeholder — TypeError, or `%%` silently becomes `%`", key_of(f, f"format-string-from-data:{x}"))
+    # (l) a bitwise operator between two counts used as a truth value (`if fwd & rev:` is false for 2 and 1)
+    for f in funcs:
+        for t in [x.test for x in walk_own(f.node) if isinstance(x, (ast.If, ast.While, ast.IfExp))]:
+            if isinstance(t, ast.BinOp) and isinstance(t.op, (ast.BitAnd, ast.BitXor)) and all(isinstance(x, (ast.Name, ast.Call, ast.Subscript, ast.Attribute)) for x in (t.left, t.right)) and not any(isinstance(x, ast.Constant) for x in ast.walk(t)):
+                n += 1
+                ctx.violated(rule, f.where(t), f"`{norm(t)[:40]}` is a bitwise operation used as a truth value: for two counts it is zero whenever they share no set bit (2 & 1 == 0), not only when one of them is zero (`and` was meant)", key_of(f, f"bitwise-truth:{norm(t)[:30]}"))
+        # (m) the and-or idiom `(c and x) or y` with a number x: a legal 0 falls through to y
+        for b in walk_own(f.node):
+            if isinstance(b, ast.BoolOp) and isinstance(b.op, ast.Or) and len(b.values) == 2 and isinstance(b.values[0], ast.BoolOp) and isinstance(b.values[0].op, ast.And):
+                x = b.values[0].values[-1]
+                numeric = isinstance(x, ast.BinOp) and isinstance(x.op, (ast.Sub, ast.Add, ast.Mult)) or (isinstance(x, ast.Call) and norm(x.func) in ("int", "len"))
+                if numeric and not isinstance(b.values[1], ast.Constant):
+                    n += 1
+                    ctx.violated(rule, f.where(b), f"`{norm(b)[:70]}` is the and-or idiom with a number in the middle: when `{norm(x)[:30]}` is 0 (a legal offset) the expression falls through to `{norm(b.values[1])[:30]}`", key_of(f, f"and-or-idiom:{norm(x)[:30]}"))
+        # (n) a command-line check that one option alone triggers, whatever else is given (`not a and b or c`: precedence)
+        if f.name == "validate":
+            from .c09 import guards_of as _gofv
+            import itertools as _it
+
+            for st in walk_stmts(f.node.body):
+                if isinstance(st, ast.Expr) and isinstance(st.value, ast.Call) and norm(st.value.func).endswith(".error"):
+                    gs = _gofv(f.node, st)
+                    if len(gs) != 1 or not gs[0][1]:
+                        continue
+                    t = gs[0][0]
+                    atoms = sorted({norm(x) for x in ast.walk(t) if isinstance(x, ast.Attribute) and isinstance(x.value, ast.Name) and x.value.id == f.params[0]})
+                    pure = all(isinstance(x, (ast.BoolOp, ast.UnaryOp, ast.Not, ast.And, ast.Or, ast.Attribute, ast.Name, ast.Load)) for x in ast.walk(t))
+                    if not pure or len(atoms) < 3 or len(atoms) > 6:
+                        continue
+                    src = norm(t)
+                    for i_, a_ in enumerate(atoms):
+                        src = src.replace(a_, f"v{i_}")
+                    code = compile(src, "<guard>", "eval")
+                    for i_, a_ in enumerate(atoms):
+                        always = all(eval(code, {}, {f"v{j}": (True if j == i_ else vals[j - (1 if j > i_ else 0)]) for j in range(len(atoms))}) for vals in _it.product([False, True], repeat=len(atoms) - 1))
+                        if always:
+                            n += 1
+                            ctx.violated(rule, f.where(st), f"the command line is rejected whenever `{a_}` is given, whatever the other options are (`{norm(t)[:60]}` groups as `(... and ...) or {a_}`): every run with that option stops before anything is written", key_of(f, f"option-always-rejected:{a_}"))
+                            break
+    # (k)
+    for mod in mods:
+        for cdef in [x for x in ast.walk(mod.tree) if isinstance(x, ast.ClassDef)]:
+            if any(norm(b) in ("tuple",) or "namedtuple" in norm(b) or "NamedTuple" in norm(b) for b in cdef.bases):
+                for m_ in cdef.body:
+                    if isinstance(m_, ast.FunctionDef) and m_.name in ("__eq__", "__hash__"):
+                        n += 1
+                        ctx.violated(rule, f"{mod.relpath}:{m_.lineno} {cdef.name}.{m_.name}", f"`{cdef.name}` is a tuple whose `{m_.name}` is redefined: membership in a set, `==` and `remove` of such items no longer compare all their parts (two links to the same neighbour that differ in side or overlap become one entry)", f"{mod.name}.{cdef.name}::tuple-equality-redefined:{m_.name}")
+                        break
+    return n
+
+
 def tag_pop_reinsert(ctx, rule):
     """A key taken out of a record's tag mapping (`tags.pop(k)`, `del tags[k]`) and stored again moves to the end of the
     insertion-ordered dict: the record is written with its optional fields in another order."""
@@ -1853,6 +2020,7 @@ def pre_lints(ctx):
                     n += 1
                     ctx.violated("R00.10", f.where(st), f"`{norm(st)[:60]}`: `or` replaces every falsy value, so a legal {a_.id} of 0 (or an empty string) read from the file becomes {b_.value!r} in the record", key_of(f, f"falsy-default:{st.targets[0].attr}"))
     n += tolerance_lints(ctx, funcs, "R00.12")
+    n += semantic_lints(ctx, funcs, mods, "R00.13")
     NUMERIC_TAGS = ("SO", "BO", "NO", "LN", "SR")
     for f in funcs:
         for c in walk_own(f.node):
